@@ -3,13 +3,31 @@ PENDING = "not claimed yet in this revision: the contracts for this property hav
 
 CLAIMS = {
  "C03": {
-  "text": "Proof, for all inputs, that the compile-time evaluation kernels compute what ECMA-262 prescribes: js_ast.ToInt32/ToUint32 equal the specification function jsToInt32 (transcribed from ECMA-262 7.1.6) for every float64. Each obligation is a postcondition on the real function (go/ssa of /repo), discharged by SMT (FP + bit-vector theories), unbounded.",
+  "text": "Proof, for all inputs, that the compile-time evaluation kernels compute what ECMA-262 prescribes: js_ast.ToInt32/ToUint32 equal the specification function jsToInt32 (transcribed from ECMA-262 7.1.6) for every float64; FoldBinaryOperator's numeric arms (+ - * / % << >> >>> & | ^ < > <= >= == !=) equal the IEEE/ToInt32-based Number::* operations, its string arms equal code-unit lexicographic comparison (stringCompareUCS2 proved against a quantified specification with a loop invariant), and ** agrees with the Number::exponentiate special-case rows. Each obligation is a postcondition on the real function (go/ssa of /repo), discharged by SMT (FP + bit-vector theories), unbounded.",
   "note": "NOT covered: every rewrite whose validity depends on side effects and evaluation order (SimplifyUnusedExpr, MangleIfExpr, mangleStmts, substitution), define/pure/drop handling. A kernel proof is not a proof of the whole property.",
   "technique": "contract-based deductive verification: WP-style VCs from go/ssa, SMT (z3/cvc5)",
   "design_ref": "DESIGN.md section 4 C03",
  },
 }
 
-NA = {k: PENDING for k in ["C01","C02","C04","C06","C07","C08","C09","C10","C11","C12","C14","C15","C16","C17","C18","C19","C20"]}
+CLAIMS["C07"] = {
+  "text": "Proof, for all inputs and all iteration counts, of the position arithmetic kernels of source maps: SourceMap.Find returns the last mapping at or before (line, column) on that line (binary search with quantified loop invariants, under the stated sortedness precondition); DecodeVLQUTF16 is total and terminates on every input; LineColumnOffset.ComesBefore is a strict total order; in SourceMapPieces.Finalize every path-substitution boundary before a mapping has been consumed when that mapping is re-based.",
+  "note": "NOT covered: that the printer records the right original location for each token (whole printer), composition through input maps beyond Find's contract, sourcesContent plumbing, the VLQ encode/decode inverse (not yet under contract), chunk joining in the linker. Find's sortedness precondition and non-nil receiver are assumptions at its callers.",
+  "technique": "contract-based deductive verification: loop invariants + WP-style VCs from go/ssa, SMT (z3/cvc5)",
+  "design_ref": "DESIGN.md section 4 C07",
+}
+CLAIMS["C08"] = {
+  "text": "Proof that every named comparator whose input order can depend on map iteration or goroutine arrival (logger.SortableMsgs, linker.crossChunkImportArray/crossChunkImportItemArray/stableRefArray/chunkOrderArray, renamer.StableSymbolCountArray/slotAndCountArray, ast.charAndCountArray, js_parser.scopeMemberArray, api.metafileArray) is asymmetric, transitive, and that incomparable elements agree on every compared key: the real Less methods are symbolically executed (go/ssa) inside lemma queries over arbitrary slices and indices. With sort.Sort/Stable this makes the sorted result a function of the multiset of keys.",
+  "note": "NOT covered: interleavings themselves; map-iteration order inside loop bodies that do not end in a sort; key uniqueness where elements are built (e.g. that StableSourceIndex is taken from StableSourceIndices); absolute-path independence; helpers.Serializer ordering; process-global caches. sort.Sort/sort.Stable are trusted to sort according to Less.",
+  "technique": "contract-based deductive verification: relational lemmas over inlined real comparators, SMT",
+  "design_ref": "DESIGN.md section 4 C08",
+}
+CLAIMS["C14"] = {
+  "text": "Proof of the feature-set algebra: JSFeature/CSSFeature.ApplyOverrides gives the override wherever the mask is set and the computed bit elsewhere (so `supported` is honoured in both directions), Has tests exactly the requested bits; compareVersions returns the sign of the lexicographic order on (major, minor, patch) with a pre-release sorting below; isVersionSupported holds iff the version lies in one of the half-open ranges (loop invariant, all range lists).",
+  "note": "NOT covered: that parsed newer syntax is always lowered or reported (whole parser), the contents of the compatibility tables, gate dominance of syntax-creating minifier/linker sites (planned, not yet claimed), UnsupportedJSFeatures' map loops, validateSupported. compareVersions assumes version parts below 2^31 (established by the API's digit-limited parsing: assumption).",
+  "technique": "contract-based deductive verification: WP-style VCs from go/ssa (bit-vector and integer), SMT",
+  "design_ref": "DESIGN.md section 4 C14",
+}
+NA = {k: PENDING for k in ["C01","C02","C04","C06","C09","C10","C11","C12","C15","C16","C17","C18","C19","C20"]}
 NA["C05"] = "Lowering correctness is equivalence between two JavaScript programs (native construct vs helper-call expansion; helpers are JS text in runtime.go); a Go-level contract can state an AST shape, not what the shape computes. The Go-level facts (a construct is lowered iff its feature bit is unsupported) are C14's gate obligations."
 NA["C13"] = "Output re-parses / is a fixed point of print∘parse / every valid program is accepted are relations over the whole lexer+parser+printer against the ECMAScript and CSS grammars; no function's postcondition states them short of a verified parser."
